@@ -557,7 +557,10 @@ def worker_main():
 #  pty sessions (one per subprocess): real raw_display.Screen on a pty, any installed event loop
 # =====================================================================================================
 PTY_KEYS = [[1, 97, 0, 0], [1, 98, 0, 0], [2, 1, 3, 2], [1, 99, 0, 0]]      # 'a' (handled) 'b' mouse 'c'
+PTY_REDRAW = [1, CTRL_L, 0, 0]           # typed later, on its own: the widget does not change
 LOOPS = ["select", "asyncio", "tornado", "trio", "twisted", "zmq"]
+PTY_SAFETY = 8.0          # seconds; a complete session takes about 0.1 s
+RERUNNABLE = ("select", "asyncio", "zmq", "trio")     # loops whose run() may be entered a second time
 
 
 def make_loop(name, urwid):
@@ -578,7 +581,7 @@ def make_loop(name, urwid):
 
 
 def run_pty(case):
-    """alarm -> keys typed on the pty -> (last callback of the input) pipe write -> alarm -> quit,
+    """alarm -> keys typed on the pty -> pipe write -> ctrl-L typed -> alarm -> quit,
     each step started by the previous one, so the order does not depend on timing"""
     import fcntl
     import pty
@@ -592,8 +595,37 @@ def run_pty(case):
     cfg = case["cfg"]
     master, slave = pty.openpty()
     fcntl.ioctl(master, termios.TIOCSWINSZ, struct.pack("HHHH", 5, 20, 0, 0))
+    os.set_blocking(master, False)
     tty_in = os.fdopen(slave, "rb", buffering=0, closefd=False)
     tty_out = os.fdopen(slave, "w", closefd=False)
+    grid = Grid(20, 5)
+    seen = []
+
+    def drain():
+        """everything the screen has written so far goes into the little terminal"""
+        try:
+            tty_out.flush()
+        except Exception:      # noqa: BLE001
+            pass
+        data = b""
+        try:
+            while True:
+                ch = os.read(master, 65536)
+                if not ch:
+                    break
+                data += ch
+        except (BlockingIOError, OSError):
+            pass
+        text = data.decode("latin-1")
+        seen.append(text)
+        grid.feed(text)
+
+    class PtyScreen(Screen):
+        def clear(self):
+            # a forced repaint is requested because the terminal may show anything by now
+            drain()
+            grid.garble()
+            return Screen.clear(self)
 
     def app_handler(signum, frame):
         pass
@@ -601,29 +633,28 @@ def run_pty(case):
     for s, x in zip(sigs, cfg.get("sig", [0, 0, 0])):
         signal.signal(s, {0: signal.SIG_DFL, 1: signal.SIG_IGN, 2: app_handler}[x])
     tios_before = termios.tcgetattr(slave)
-    scr = Screen(input=tty_in, output=tty_out, bracketed_paste_mode=bool(cfg.get("paste")),
-                 focus_reporting=bool(cfg.get("focus")))
+    scr = PtyScreen(input=tty_in, output=tty_out, bracketed_paste_mode=bool(cfg.get("paste")),
+                    focus_reporting=bool(cfg.get("focus")))
     loop = make_loop(case["loop"], urwid)
     w = make_widget(S, case["widget"], urwid)
     keys = case.get("keys", PTY_KEYS)
     nkeys_seen = [0]
     pipe_fd = [None]
 
-    def step_after_input():
-        if nkeys_seen[0] >= len(keys) and pipe_fd[0] is not None:
-            fd, pipe_fd[0] = pipe_fd[0], None
-            os.write(fd, b"P")
-
     def filt(ks, raw):
         kk = [key_from_py(k) for k in ks]
+        before = nkeys_seen[0]
         nkeys_seen[0] += len([k for k in kk if k[0] != 0])
         try:
             S.cb([T_FILTER, len(kk)] + [x for k in kk for x in k])
         finally:
-            # the next step of the chain is started by the LAST callback of the input; if nothing
-            # follows the filter (all keys handled) a zero-delay alarm does it
-            if nkeys_seen[0] >= len(keys):
-                ml.set_alarm_in(0, lambda l, d: step_after_input())
+            # the next step of the chain starts once the whole input has gone through MainLoop
+            if before < len(keys) <= nkeys_seen[0] and pipe_fd[0] is not None:
+                fd, pipe_fd[0] = pipe_fd[0], None
+                # (a real delay: the loop redraws and waits before the chain goes on)
+                ml.set_alarm_in(0.01, lambda l, d: os.write(fd, b"P"))
+            elif nkeys_seen[0] > len(keys):
+                ml.set_alarm_in(0.01, alarm2)
         return ks
 
     def unh(key):
@@ -634,19 +665,43 @@ def run_pty(case):
                         input_filter=filt, unhandled_input=unh, pop_ups=bool(cfg.get("pop_ups")))
 
     def alarm2(l, d):
+        # the loop has waited since the redraw key: what does the terminal show now?
+        drain()
+        S.shown.append(1 if grid.shows(["S%d" % S.wstate]) else 0)
         S.cb([T_ALARM, 2])
         tr.append([T_QUIT])
         raise urwid.ExitMainLoop()
 
     def pcb(data):
         S.cb([T_PIPE, 1, data[0] if data else -1])
-        ml.set_alarm_in(0.01, alarm2)
+        os.write(master, key_bytes(PTY_REDRAW))
 
     def alarm1(l, d):
         S.cb([T_ALARM, 1])
         os.write(master, b"".join(key_bytes(k) for k in keys))
     pipe_fd[0] = ml.watch_pipe(pcb)
     ml.set_alarm_in(0.02, alarm1)
+    flags = {"safety": 0}
+
+    def safety(l, d):
+        # the chain broke (a callback's exception was swallowed, input got lost ...): end the session
+        flags["safety"] = 1
+        tr.append([T_QUIT])
+        raise urwid.ExitMainLoop()
+    ml.set_alarm_in(PTY_SAFETY, safety)
+
+    def observe():
+        try:
+            tios_ok_ = 1 if termios.tcgetattr(slave) == tios_before else 0
+        except termios.error:
+            tios_ok_ = -1                 # the descriptor is gone
+        modes = {v: 0 for v in MODES.values()}
+        modes["cursor"] = 1
+        for mo in Recorder.PAT.finditer("".join(seen)):
+            for num in mo.group(1).split(";"):
+                if num and int(num) in MODES:
+                    modes[MODES[int(num)]] = 1 if mo.group(2) == "h" else 0
+        return ([sig_id(signal.getsignal(s), scr, app_handler) for s in sigs], bool(scr.started), modes, tios_ok_)
     out = ["ok"]
     try:
         ml.run()
@@ -654,34 +709,32 @@ def run_pty(case):
         out = ["exc", e.ident, 1 if (S.raised and e is S.raised[-1]) else 0]
     except BaseException as e:     # noqa: B036
         out = ["err", type(e).__name__ + ":" + str(e)[:80]]
-    try:
-        tty_out.flush()
-    except Exception as e:         # noqa: BLE001
-        out = ["err", "flush:" + type(e).__name__]
-    os.set_blocking(master, False)
-    data = b""
-    try:
-        while True:
-            ch = os.read(master, 65536)
-            if not ch:
-                break
-            data += ch
-    except (BlockingIOError, OSError):
-        pass
-    try:
-        tios_after = termios.tcgetattr(slave)
-        tios_ok = 1 if tios_after == tios_before else 0
-    except termios.error:
-        tios_ok = -1                 # the descriptor is gone
-    final = [sig_id(signal.getsignal(s), scr, app_handler) for s in sigs]
-    modes = {v: 0 for v in MODES.values()}
-    modes["cursor"] = 1
-    for mo in Recorder.PAT.finditer(data.decode("latin-1")):
-        for num in mo.group(1).split(";"):
-            if num and int(num) in MODES:
-                modes[MODES[int(num)]] = 1 if mo.group(2) == "h" else 0
-    return {"trace": tr, "out": out, "sig": final, "started": bool(scr.started), "ncb": S.n, "term": modes,
-            "tios_ok": tios_ok, "nbytes": len(data)}
+    drain()
+    final, started, modes, tios_ok = observe()
+    ntrace, ncb1, shown1 = len(tr), S.n, list(S.shown)
+    second = None
+    if case.get("second_run") and out == ["ok"] and case["loop"] in RERUNNABLE:
+        # run() once more on the same MainLoop and Screen; nothing but a final alarm
+        S.plan = {}
+
+        def alarm3(l, d):
+            drain()
+            S.shown.append(1 if grid.shows(["S%d" % S.wstate]) else 0)
+            raise urwid.ExitMainLoop()
+        ml.set_alarm_in(0.05, alarm3)
+        out2 = ["ok"]
+        try:
+            ml.run()
+        except BaseException as e:     # noqa: B036
+            out2 = ["err", type(e).__name__ + ":" + str(e)[:80]]
+        drain()
+        sig2, started2, modes2, tios2 = observe()
+        second = {"out": out2, "shown": S.shown[len(shown1):], "started": started2, "sig": sig2, "term": modes2,
+                  "tios_ok": tios2}
+    del tr[ntrace:]
+    return {"trace": tr, "out": out, "sig": final, "started": started, "ncb": ncb1, "term": modes,
+            "tios_ok": tios_ok, "nbytes": sum(len(x) for x in seen), "shown": shown1, "second": second,
+            "safety": flags["safety"]}
 
 
 # =====================================================================================================
@@ -805,10 +858,12 @@ class C12(core.Check):
                   "first fault `raise e` makes exactly e leave run(), and nothing else can leave run(); (3) the display is "
                   "stopped and every terminal mode, the tty settings and the SIGWINCH/SIGTSTP/SIGCONT handlers (whatever they "
                   "were) are as before run() on every path (always_restored_full).  These are theorems about the "
-                  "MODEL of urwid's control flow.  The model is tied to the code by exact correspondence of the full call trace "
+                  "MODEL of urwid's control flow (it includes Screen.draw_screen's 'nothing changed' shortcut: screen_buf / "
+                  "_screen_buf_canvas, invalidated by clear(), stop() and SIGWINCH).  The model is tied to the code by exact correspondence of the full call trace "
                   "(screen calls, DEC private mode writes in write order, callbacks), outcome, final modes and signal handlers "
                   "with the real MainLoop + SelectEventLoop driving the real raw_display.Screen on pipes (no tty) and a plain "
-                  "BaseScreen fake (3k+ sessions per quick run).  PARTIAL BY NATURE / oracle only: termios save/restore, "
+                  "BaseScreen fake (3k+ sessions per quick run).  Oracle only: that the redraw reaches the terminal (the written bytes, "
+                  "decoded into a grid, show the widget state at every wait, also after ctrl-L and in a second run()).  PARTIAL BY NATURE / oracle only: termios save/restore, "
                   "delivery through a real pty, and the five other event loops (asyncio, tornado, trio, twisted, zmq) are "
                   "examined by fault injection at every callback index on a pty (final states only), not by proof; the glib loop "
                   "is not installed.  The event loop inside the model is the C13 contract, not the loops' code.")
@@ -819,8 +874,11 @@ class C12(core.Check):
                   "only after it was delivered; no gpm mouse (linux console).")
     rule = ("cases = (kind, config, widget answers, script, fault plan).  kind hook/plain: every base script x config x widget "
             "x every callback index x {ExitMainLoop, exception} (exhaustive over fault points), plus random sessions with 0-2 "
-            "planned faults; kind pty: real screen on a pty x each installed event loop x fault at callback indices of a fixed "
-            "chained session.  non-trivial = at least one user callback was invoked; distinct by hash of (case, outcome)")
+            "planned faults; the fault kinds are ExitMainLoop, an Exception subclass and a BaseException subclass; a third of "
+            "the raw-screen sessions run() a second time on the same loop and screen; at every wait the bytes written so far, "
+            "decoded by a small terminal, must show the widget state (Screen.clear() garbles that terminal: forced repaint); "
+            "kind pty: real screen on a pty x each installed event loop x fault at callback indices of a fixed "
+            "chained session (keys, mouse, pipe, the redraw key ctrl l, second run()).  non-trivial = at least one user callback was invoked; distinct by hash of (case, outcome)")
     trusted_base = [
         "Coq 8.16.1 kernel (coqc; vm_compute used for closed examples, the refutation witness and the finite case splits of start/stop)",
         "extraction: ExtrOcamlBasic only; Z/positive stay Coq datatypes; OCaml 4.13.1; tools/driver/driver.ml",
@@ -1038,6 +1096,14 @@ class C12(core.Check):
         plan = {int(k): v for k, v in case.get("plan", {}).items()}
         ncb = res["ncb"]
         fired = sorted(i for i in plan if i < ncb)
+        quit_pos = next((k for k, t in enumerate(tr) if t[0] == T_QUIT), None)
+        if fired and quit_pos is not None:
+            # a callback invoked while the loop was already winding down after the harness's final ExitMainLoop
+            # (a pending idle redraw on some loops): the session was over, nothing is judged for it
+            cb_pos = [k for k, t in enumerate(tr) if t[0] in CB_TAGS]
+            if fired[0] < len(cb_pos) and cb_pos[fired[0]] > quit_pos:
+                fired = []
+        off_script = False
         # --- outcome of run() ---
         if fired:
             i = fired[0]
@@ -1054,9 +1120,12 @@ class C12(core.Check):
                 elif ran_on:
                     msgs.append(f"ExitMainLoop raised in callback #{i} ({where}) did not end run(): the loop kept running "
                                 f"to the end of the scripted session")
+                    off_script = True
             elif res["out"][:2] != ["exc", plan[i]]:
-                msgs.append(f"exception {plan[i]} raised in callback #{i} ({where}): what left run() is {res['out']}"
+                what = "BaseException-derived exception" if plan[i] >= BASE_EXC else "exception"
+                msgs.append(f"{what} {plan[i]} raised in callback #{i} ({where}): what left run() is {res['out']}"
                             + (" and the loop kept running to the end of the scripted session" if ran_on else ""))
+                off_script = True
             elif res["out"][2] != 1:
                 msgs.append(f"exception {plan[i]} raised in callback #{i} ({where}): a different exception object left run()")
         else:
@@ -1077,7 +1146,26 @@ class C12(core.Check):
             if res.get("tios_ok") != 1:
                 msgs.append("tty settings (termios) differ after run()" if res.get("tios_ok") == 0
                             else "the terminal descriptor is no longer usable after run()")
+            if off_script:
+                return msgs          # the exception was lost: what the rest of the session did is not judged
+            if res.get("safety"):
+                msgs.append(f"the scripted session did not complete within {PTY_SAFETY:.0f}s (input or a wake-up was lost)")
+                return msgs
             msgs += self.order_pty(case, res)
+            if not all(res.get("shown", [])):
+                msgs.append("after the redraw key (ctrl l) the loop waited but the terminal does not show the widget state "
+                            "(the requested repaint was not written)")
+            sec = res.get("second")
+            if sec is not None:
+                if sec["out"] != ["ok"]:
+                    msgs.append(f"second run() on the same MainLoop and Screen: {sec['out']}")
+                elif not sec["shown"] or not all(sec["shown"]):
+                    msgs.append("second run() on the same MainLoop and Screen: the loop waited but the terminal does not "
+                                "show the widget state (nothing was painted into the fresh alternate buffer)")
+                bad2 = [k for k, v in sorted(sec["term"].items()) if v != (1 if k == "cursor" else 0)]
+                if sec["started"] or bad2 or sec["sig"] != list(cfg.get("sig", [0, 0, 0])) or sec["tios_ok"] != 1:
+                    msgs.append(f"second run() on the same MainLoop and Screen: not restored afterwards (started="
+                                f"{sec['started']}, modes={bad2}, handlers={sec['sig']}, termios_ok={sec['tios_ok']})")
             return msgs
         # --- the redraw really reaches the terminal: at every wait it shows the widget state ---
         for k, ok in enumerate(res.get("shown", [])):
@@ -1162,7 +1250,7 @@ class C12(core.Check):
         """batching over a pty is the kernel's business: check per batch, keys in arrival order"""
         msgs = []
         cfg, wc = case["cfg"], case["widget"]
-        keys = case.get("keys", PTY_KEYS)
+        keys = case.get("keys", PTY_KEYS) + [PTY_REDRAW]
         tr = [t for t in res["trace"] if t[0] in ORDER_TAGS]
         cfg2 = dict(cfg, filter=[], unhandled=0)
         seen = 0
@@ -1198,8 +1286,8 @@ class C12(core.Check):
         return case["kind"] + ":" + case.get("loop", "") + ":" + re.sub(r"\d+", "N", msg)[:90]
 
     def distribution(self, case, res, dist):
-        def inc(k):
-            dist[k] = dist.get(k, 0) + 1
+        def inc(k, by=1):
+            dist[k] = dist.get(k, 0) + by
         inc("kind:" + case["kind"])
         if case["kind"] == "pty":
             inc("loop:" + case["loop"])
@@ -1212,7 +1300,7 @@ class C12(core.Check):
             inc("fault:none")
         for k, v in plan.items():
             if int(k) < res.get("ncb", 0):
-                inc("fault_fired:" + ("exit" if v == 0 else "raise"))
+                inc("fault_fired:" + ("exit" if v == 0 else ("raise_base_exception" if v >= BASE_EXC else "raise")))
                 tr = [t for t in res.get("trace", []) if t[0] in CB_TAGS]
                 if int(k) < len(tr):
                     inc("fault_at:" + {T_FILTER: "filter", T_KEYPRESS: "keypress", T_MOUSE: "mouse", T_UNHANDLED: "unhandled",
@@ -1221,6 +1309,12 @@ class C12(core.Check):
         for f in ("pop_ups", "prestarted", "paste", "focus", "tty"):
             if cfg.get(f):
                 inc("cfg:" + f)
+        if res.get("second") is not None:
+            inc("second_run_done")
+        if res.get("shown"):
+            inc("waits_judged_by_terminal_content", len(res["shown"]))
+        if any(t[0] == T_CLEAR for t in res.get("trace", [])[:-8]) or case["kind"] == "pty":
+            inc("sessions_with_forced_repaint")
         fired = [int(k) for k in plan if int(k) < res.get("ncb", 0)]
         if case["kind"] == "pty" and fired and min(fired) != res.get("ncb", 0) - 1:
             inc("obs:callbacks_after_the_fault:" + case["loop"])
@@ -1249,7 +1343,7 @@ class C12(core.Check):
             n = n * pu + (1 + len(case["inputs"])) * pu
         return n + 1
 
-    def with_faults(self, base, kinds=(0, 7), step=1):
+    def with_faults(self, base, kinds=(0, 7, BASE_EXC + 7), step=1):
         yield dict(base, plan={})
         for i in range(0, self.ncb_estimate(base), step):
             for f in kinds:
@@ -1264,9 +1358,10 @@ class C12(core.Check):
             [[["pipe", 1, 66], ["alarm", 6], ["alarm", 7]], [["in", [K(97)]]]],
         ]
         cfgs = [
-            {"filter": [], "unhandled": 0, "handle_mouse": True, "pop_ups": False, "paste": False, "focus": False},
+            {"filter": [], "unhandled": 0, "handle_mouse": True, "pop_ups": False, "paste": False, "focus": False,
+             "second_run": True},
             {"filter": None, "unhandled": None, "handle_mouse": False, "pop_ups": False, "paste": True, "focus": True,
-             "tty": True},
+             "tty": True, "second_run": True},
             {"filter": [99], "unhandled": 1, "handle_mouse": True, "pop_ups": True, "paste": True, "focus": False,
              "pre_alarms": [3]},
             {"filter": [97, 98, 99, 100, 12], "unhandled": 1, "handle_mouse": True, "pop_ups": False, "prestarted": True,
@@ -1306,7 +1401,7 @@ class C12(core.Check):
         cfg = {"filter": rng.choice([None, [], [rng.choice(codes)], rng.sample(codes, 3)]),
                "unhandled": rng.choice([None, 0, 1]), "handle_mouse": rng.random() < 0.7, "pop_ups": rng.random() < 0.3,
                "paste": rng.random() < 0.4, "focus": rng.random() < 0.4, "prestarted": rng.random() < 0.2,
-               "tty": rng.random() < 0.3,
+               "tty": rng.random() < 0.3, "second_run": rng.random() < 0.3,
                "pre_alarms": [rng.randrange(1, 9) for _ in range(rng.choice([0, 0, 1, 2]))],
                "sig": [rng.choice([0, 0, 1, 2]), rng.choice([0, 0, 1, 2]), rng.choice([0, 0, 1, 2])]}
         wc = {"selectable": rng.random() < 0.8, "has_mouse": True,
@@ -1336,6 +1431,7 @@ class C12(core.Check):
             cfg.pop("paste")
             cfg.pop("focus")
             cfg.pop("tty")
+            cfg.pop("second_run")
             inputs = []
             for _ in range(rng.randrange(1, 6)):
                 if rng.random() < 0.25:
@@ -1351,7 +1447,7 @@ class C12(core.Check):
         if x < 0.15:
             case["plan"] = {}
         elif x < 0.85:
-            case["plan"] = {str(rng.randrange(0, n)): rng.choice([0, rng.randrange(1, 50)])}
+            case["plan"] = {str(rng.randrange(0, n)): rng.choice([0, rng.randrange(1, 50), BASE_EXC + rng.randrange(1, 50)])}
         else:
             i, j = rng.randrange(0, n), rng.randrange(0, n)
             case["plan"] = {str(i): rng.choice([0, 5]), str(j): rng.choice([0, 6])}
@@ -1378,12 +1474,16 @@ class C12(core.Check):
             cfgs.append({"handle_mouse": False, "pop_ups": True, "paste": False, "focus": False, "sig": [2, 2, 0]})
         for cfg in cfgs:
             for name in loops:
-                base = {"kind": "pty", "loop": name, "cfg": cfg, "widget": w}
+                base = {"kind": "pty", "loop": name, "cfg": cfg, "widget": w, "second_run": True}
                 yield dict(base, plan={})
-                nmax = 22 if cfg.get("pop_ups") else 16
+                nmax = 32 if cfg.get("pop_ups") else 24
                 step = 1 if (tier == "thorough" or name in ("select", "asyncio")) else 2
                 for i in range(0, nmax, step):
-                    for f in ((0, 7) if (tier == "thorough" or i % 2 == 0) else (7,)):
+                    if tier == "thorough":
+                        faults = (0, 7, BASE_EXC + 7)
+                    else:
+                        faults = (0, BASE_EXC + 7) if (i // step) % 2 == 0 else (7, BASE_EXC + 7)
+                    for f in faults:
                         yield dict(base, plan={str(i): f})
 
     def prefetching(self, gen, width=8):
@@ -1437,7 +1537,7 @@ class C12(core.Check):
             if int(k) > 0:
                 yield dict(case, plan={(str(int(a) - 1) if a == k else a): b for a, b in plan.items()})
         cfg = case["cfg"]
-        for f in ("pop_ups", "prestarted", "paste", "focus", "tty"):
+        for f in ("pop_ups", "prestarted", "paste", "focus", "tty", "second_run"):
             if cfg.get(f):
                 yield dict(case, cfg=dict(cfg, **{f: False}))
         if cfg.get("pre_alarms"):
